@@ -105,6 +105,12 @@ def run(ctx):
     for fk2 in ("<Bls12381G1Impl as Pairing>::pairing", "<Bls12381G2Impl as Pairing>::pairing"):
         check_pipeline(ctx, P, fk2)
     # positive control for the adapter deny-list
+    # "aggregation of fewer than two signatures ... is refused": refused, not aborted on (both profiles)
+    from . import aborts as A_
+
+    roots_ = ["<AggregateSignature<C> as TryFrom<&[Signature<C>]>>::try_from", "AggregateSignature<C>::from_signatures", "AggregateSignature<C>::verify"]
+    A_.check_aborts(ctx, "E8", P, roots_, scope="C06")
+    A_.check_aborts(ctx, "E8", ctx.prog("blst", "nodebug"), roots_, scope="C06", profile="nodebug")
     from .posctl import run_posctl
 
     run_posctl(ctx, "E7.adapters", "adapters")
